@@ -28,12 +28,21 @@
     * C12_HS_filter_full / C12_HS_bucket_filter_full — the three together.
   The hypotheses (`HG.ProbHyp`, `HG.BucketHyp`) are Boolean checks on a literal grammar
   (`HG.probHyp_of_checks`, `HG.bucketHyp_of_checks`); acyclicity is needed (findings C03-F3/C03-F4).
-  Not proved: the merge half (false, C12-F1), recursive grammars, the unambiguous-grammar machine.
+  UNAMBIGUOUS-GRAMMAR MACHINE (section "unambiguous machine"): safety C12_HS_U_filter_safe; on acyclic
+  unambiguous grammars with several start symbols the filter half C12_HS_U_filter_complete,
+  C12_HS_U_filter_sorted, C12_HS_U_filter_terminates, C12_HS_U_filter_full.
+  Not proved: the merge half (false, C12-F1), recursive grammars, thresholds of the unambiguous machine.
 -/
 import PS.Model.Enum.HeapSearch
 import PS.Model.Enum.UHeapSearch
 import PS.Proofs.Enum.HeapSearch
 import PS.Proofs.Enum.GInst
+import PS.Proofs.Enum.UUnamb
+import PS.Proofs.Enum.UFrame
+import PS.Proofs.Enum.UCompleteRun
+import PS.Proofs.Enum.UOrderCheck
+import PS.Proofs.Enum.UTotalCheck
+import PS.Proofs.Enum.UPrefix
 namespace PS.C12HS
 open PS PS.G
 
@@ -234,5 +243,133 @@ example : (take fB 28 10 (Gen.new fG) []).map (fun r => (r.2.1.length, r.2.2, r.
 /-- a clean member: `(+ x x)` -/
 example : clean fFilter (.node fPlus [.node fX [], .node fX []]) = true := by decide +kernel
 end Filter
+
+/-! ## unambiguous machine -/
+section UMachine
+open PS.UHS
+variable {U π : Type} [DecidableEq U]
+
+/-- **C12, safety with a filter, unambiguous-grammar machine** (heap search and bucket search of
+    u_heap_search.py, any threshold, every fuel, every prefix of the run) on ACYCLIC grammars whose start
+    languages are disjoint: the yielded programs are members of the grammar (`U.genU`), are accepted by
+    the filter and are pairwise distinct.  Acyclicity gives `UHS.NoReent` (`__add_successors__(p, S)` does
+    not re-enter `query(S, ·)`, `UHS.noReent_of_acyclic`), which the skip loop
+    `while succ in self.deleted` of `query` needs to keep `succ[S]` a function. -/
+theorem C12_HS_U_filter_safe (E : UHS.Env U π) (H : GHyp E) (rank : UHS.UNT U → Nat) (hac : Acyclic E rank)
+    (hdisj : SDisj E) (hstarts : (E.G.starts.map (·.1)).Nodup) (d : UHS.UNT U) (fuel k : Nat) (s' : UHS.St U π)
+    (out : List Prog) (b : Bool) (h : UHS.take E fuel k (UHS.St.empty E.G) [] = some (s', out, b)) :
+    (∀ p ∈ out, PS.U.genU (E.G.toUCFG d) p = true) ∧ (∀ p ∈ out, E.filter p = true) ∧ out.Nodup := by
+  obtain ⟨a, b'⟩ := take_nodup E ⟨H, hdisj, hstarts, Or.inr (noReent_of_acyclic E H rank hac)⟩ fuel k s' out b h
+  refine ⟨?_, b', a⟩
+  intro p hp
+  rw [← derStart_iff_genU]
+  exact ((sinv_empty E).take H k (by intro q hq; cases hq) h).2 p hp
+
+omit [DecidableEq U] in
+/-- a program rejected at the yield site is in `deleted` afterwards, and `deleted` only grows there -/
+theorem C12_HS_U_rejected_deleted (s : UHS.St U π) (p q : Prog) :
+    p ∈ (s.addDeleted p).deleted ∧ (q ∈ s.deleted → q ∈ (s.addDeleted p).deleted) := by
+  unfold UHS.St.addDeleted
+  split
+  · rename_i h; exact ⟨by simpa using h, fun hq => hq⟩
+  · exact ⟨by simp, fun hq => List.mem_append_left _ hq⟩
+
+/-- **C12, COMPLETENESS RELATIVE TO THE FILTER, unambiguous-grammar machine** (acyclic unambiguous grammars,
+    several start symbols, no threshold; any priority type with a monotone `combine`): once the generator
+    has stopped, every member all of whose sub-programs (itself included) the filter accepts — `HG.clean` —
+    was yielded.  The rejected programs enter `deleted` at the yield site and are skipped by the pop loop of
+    every non-terminal (`while succ in self.deleted`), their successors still being pushed: the order and
+    completeness invariants (`UHS.NTInv`, `UHS.CInv`: what was ever pushed is in the heap, was popped, or was
+    skipped as a rejected program) are kept by the skip branch too (`UHS.big_order`, case `pop_deleted`),
+    and an exhausted non-terminal has popped every clean derivable program (`UHS.exhausted_complete`). -/
+theorem C12_HS_U_filter_complete (E : UHS.Env U π) (rank : UHS.UNT U → Nat) (Good : π → Prop) (R : RHyp E rank Good)
+    (d : UHS.UNT U) (fuel k : Nat) (s' : UHS.St U π) (out : List Prog)
+    (h : UHS.take E fuel k (UHS.St.empty E.G) [] = some (s', out, true)) (p : Prog)
+    (hp : PS.U.genU (E.G.toUCFG d) p = true) (hcl : PS.HG.clean E.filter p = true) : p ∈ out := by
+  obtain ⟨nt, w, hw, hd⟩ := (derStart_iff_genU E d p).mpr hp
+  exact take_complete R fuel k s' out h p nt w hw hd hcl
+
+/-- with a filter installed the yielded keys are still in best-first order (every fuel, every prefix) -/
+theorem C12_HS_U_filter_sorted (E : UHS.Env U π) (rank : UHS.UNT U → Nat) (Good : π → Prop) (R : RHyp E rank Good)
+    (fuel k : Nat) (s' : UHS.St U π) (out : List Prog) (b : Bool)
+    (h : UHS.take E fuel k (UHS.St.empty E.G) [] = some (s', out, b)) :
+    out.Pairwise (fun p q => ∀ kp kq, StartKey E p kp → StartKey E q kq → E.ops.lt kq kp = false) :=
+  take_sorted R fuel k s' out b h
+
+/-- **prefix completeness with a filter** (every fuel, every prefix of the run): once a program `q` has been
+    yielded, every member all of whose sub-programs are accepted and whose key is strictly better than the
+    key of `q` has been yielded -/
+theorem C12_HS_U_filter_prefix_complete (E : UHS.Env U π) (rank : UHS.UNT U → Nat) (Good : π → Prop) (R : RHyp E rank Good)
+    (fuel k : Nat) (s' : UHS.St U π) (out : List Prog) (b : Bool)
+    (h : UHS.take E fuel k (UHS.St.empty E.G) [] = some (s', out, b)) (p q : Prog) (hq : q ∈ out) (kp kq : π)
+    (hkp : StartKey E p kp) (hkq : StartKey E q kq) (hlt : E.ops.lt kp kq = true)
+    (hcl : PS.HG.clean E.filter p = true) : p ∈ out :=
+  take_prefix_complete R fuel k s' out b h p q hq kp kq hkp hkq hlt hcl
+
+/-- **C12, termination with a filter, unambiguous-grammar machine**: with enough fuel the generator stops;
+    the pop loop skips every rejected program at most once per non-terminal (a program taken out of a heap
+    never comes back: `UHS.addSucc_proc`), and `next` loops at most once per rejected program -/
+theorem C12_HS_U_filter_terminates (E : UHS.Env U π) (rank : UHS.UNT U → Nat) (Good : π → Prop) (R : RHyp E rank Good)
+    (L Al A : Nat) (T : THyp E L Al A) (fuel : Nat)
+    (hf : FuelOK E rank (L + Al + A + 6 + (langList E rank).length) fuel) (hN : (langList E rank).length + 1 ≤ fuel) :
+    ∃ k s' out, UHS.take E fuel k (UHS.St.empty E.G) [] = some (s', out, true) :=
+  take_stops R T hf hN
+
+/-- **C12, THE FILTER HALF FOR THE UNAMBIGUOUS-GRAMMAR MACHINE** (acyclic unambiguous grammars, several start
+    symbols): with enough fuel the generator stops; its output is duplicate-free, contains only accepted
+    members, and contains every member all of whose sub-programs are accepted -/
+theorem C12_HS_U_filter_full (E : UHS.Env U π) (rank : UHS.UNT U → Nat) (Good : π → Prop) (R : RHyp E rank Good)
+    (L Al A : Nat) (T : THyp E L Al A) (d : UHS.UNT U) (fuel : Nat)
+    (hf : FuelOK E rank (L + Al + A + 6 + (langList E rank).length) fuel) (hN : (langList E rank).length + 1 ≤ fuel) :
+    ∃ k s' out, UHS.take E fuel k (UHS.St.empty E.G) [] = some (s', out, true) ∧ out.Nodup ∧
+      (∀ p ∈ out, PS.U.genU (E.G.toUCFG d) p = true ∧ E.filter p = true) ∧
+      (∀ p, PS.U.genU (E.G.toUCFG d) p = true → PS.HG.clean E.filter p = true → p ∈ out) := by
+  obtain ⟨k, s', out, h⟩ := take_stops R T hf hN
+  obtain ⟨a, b, c⟩ := C12_HS_U_filter_safe E R.ohyp.ghyp rank R.ohyp.acyclic R.disj R.starts_nodup d fuel k s' out true h
+  exact ⟨k, s', out, h, c, fun p hp => ⟨a p hp, b p hp⟩,
+    fun p hp hcl => C12_HS_U_filter_complete E rank Good R d fuel k s' out h p hp hcl⟩
+
+/-! non-vacuity: three start symbols, two alternatives for `+` at `S2`; the filter rejects the leaf `1` -/
+def mT : Ty := .base "int"
+def m0 : UHS.UNT Nat := (mT, 0)
+def m1 : UHS.UNT Nat := (mT, 1)
+def m2 : UHS.UNT Nat := (mT, 2)
+def mPlus : Sym := Sym.prim "+" (.arrow mT (.arrow mT mT))
+def mOne : Sym := Sym.prim "1" mT
+def mV0 : Sym := Sym.var 0 mT
+def mG : UG Nat :=
+  { starts := [(m2, 1/2), (m0, 1/4), (m1, 1/4)],
+    rules := [(m1, [(mPlus, [([m0, m0], 1)])]), (m0, [(mOne, [([], 1/4)]), (mV0, [([], 3/4)])]),
+              (m2, [(mPlus, [([m0, m1], 3/5), ([m1, m0], 2/5)])])] }
+def mFilter (p : Prog) : Bool := decide (p ≠ .node mOne [])
+def mE : UHS.Env Nat Rat := { G := mG, ops := UHS.probOps 0, filter := mFilter, kway := true }
+def mRank (nt : UHS.UNT Nat) : Nat := nt.2
+
+example : ∀ k s' out b, UHS.take mE 60 k (UHS.St.empty mG) [] = some (s', out, b) →
+    (∀ p ∈ out, PS.U.genU (mG.toUCFG m0) p = true) ∧ (∀ p ∈ out, mFilter p = true) ∧ out.Nodup :=
+  fun k s' out b h => C12_HS_U_filter_safe mE (GHyp.of_checks mE (by decide) (by decide) rfl) mRank
+    (acyclic_of_check mE mRank (by decide)) (sdisj_of_budet mE (budet_of_check mE (by decide))) (by decide) m0 60 k s' out b h
+
+theorem mE_rhyp : RHyp mE mRank (fun v : Rat => 0 ≤ v) :=
+  rhyp_prob mE mRank rfl rfl (by decide) (by decide) (by decide) (by decide) (by decide) (by decide) (by decide)
+    (by decide +kernel) (by decide)
+
+example : ∀ s' out, UHS.take mE 60 30 (UHS.St.empty mG) [] = some (s', out, true) → ∀ p,
+    PS.U.genU (mG.toUCFG m0) p = true → PS.HG.clean mFilter p = true → p ∈ out :=
+  fun s' out h p hp hcl => C12_HS_U_filter_complete mE mRank _ mE_rhyp m0 60 30 s' out h p hp hcl
+
+theorem mE_langList : (langList mE mRank).length = 22 := by decide +kernel
+
+example : ∃ k s' out, UHS.take mE 102 k (UHS.St.empty mG) [] = some (s', out, true) ∧ out.Nodup ∧
+    (∀ p ∈ out, PS.U.genU (mG.toUCFG m0) p = true ∧ mFilter p = true) ∧
+    (∀ p, PS.U.genU (mG.toUCFG m0) p = true → PS.HG.clean mFilter p = true → p ∈ out) :=
+  C12_HS_U_filter_full mE mRank _ mE_rhyp 2 2 2 (thyp_of_check mE 2 2 2 (by decide)) m0 102
+    (by rw [mE_langList]; exact fuelOK_of_check mE mRank 34 102 (by decide)) (by rw [mE_langList]; decide)
+
+/-- what the machine does on the example: the leaf `1` is rejected when the start symbol `S0` hands it
+    over; the 20 other programs that contain it are still yielded (the statement is an inclusion) -/
+example : (UHS.take mE 60 30 (UHS.St.empty mG) []).map (fun r => (r.2.1.length, r.2.2, r.2.1.all mFilter)) =
+    some (21, true, true) := by decide +kernel
+end UMachine
 
 end PS.C12HS
